@@ -131,14 +131,16 @@ Definition check_cases (ks : list case) (ts : list tcase) (az : list acase) : li
     9 response unaddressed  10 response wrong state    11 transcript fails
    12 response accepted     13 tun -> initiation       14 tun -> spacing blocks
    15 tun -> transport      16 shift                   17 restart
-   18 ambiguous flood steps 19 tun for unknown peer *)
+   18 ambiguous flood steps 19 tun for unknown peer  20 valid MAC1 under load -> cookie reply
+   21 under-load toggles    22 dropped at gate / MAC1 while under load *)
 Definition classify (st : state) (e : event) : nat :=
   match e_body e with
   | BMsg src m =>
       match gate (wire_type m) (m_len m) with
-      | None => if wire_type m =? type_of (m_kind m) then 0%nat else 1%nat
+      | None => if loaded st then 22%nat else if wire_type m =? type_of (m_kind m) then 0%nat else 1%nat
       | Some k =>
-          if negb (mac1_ok k m) then 2%nat else
+          if negb (mac1_ok k m) then (if loaded st then 22%nat else 2%nat) else
+          if loaded st then 20%nat else
           match k with
           | KInit =>
               if negb (static_opens m) then 3%nat else
@@ -167,6 +169,7 @@ Definition classify (st : state) (e : event) : nat :=
       end
   | BShift _ _ => 16%nat
   | BRestart => 17%nat
+  | BLoad _ => 21%nat
   end.
 
 Fixpoint bump (l : list N) (i : nat) : list N :=
@@ -186,7 +189,7 @@ Fixpoint stats_steps (cfg : list (N * N * N)) (st : state) (cs : list cstep) (h 
   end.
 
 Definition stats (ks : list case) : list N :=
-  fold_left (fun h k => stats_steps (c_cfg k) (init (c_cfg k) (c_now0 k)) (c_steps k) h) ks (repeat 0 20).
+  fold_left (fun h k => stats_steps (c_cfg k) (init (c_cfg k) (c_now0 k)) (c_steps k) h) ks (repeat 0 23).
 
 (* ------------------------------------------- builders used by case files *)
 (* Every number in a generated case file is a primitive-int literal. *)
@@ -209,6 +212,7 @@ Definition mk_msg (kindi len : Uint63.int) (muts : list mut) (remac : bool)
 Definition oi (to p sender t0 t1 t2 : Uint63.int) : out := OInit (I to) (I p) (I sender) (words_ts (I t0) (I t1) (I t2)).
 Definition orr (to p sender receiver : Uint63.int) (opens : bool) : out := OResp (I to) (I p) (I sender) (I receiver) opens.
 Definition ot (to p receiver len : Uint63.int) : out := OTrans (I to) (I p) (I receiver) (I len).
+Definition oc (to receiver : Uint63.int) : out := OCookie (I to) (I receiver).
 Definition te (idx p : Uint63.int) (hs : bool) : tentry := {| t_idx := I idx; t_peer := I p; t_hs := hs |}.
 Definition ob (o : list out) (snap : list (list Uint63.int)) (t : list tentry) : obs :=
   {| o_out := o; o_snap := map (map I) snap; o_table := t |}.
@@ -217,6 +221,7 @@ Definition bm (src : Uint63.int) (m : msg) : body := BMsg (I src) m.
 Definition bt (p inner : Uint63.int) : body := BTun (I p) (I inner).
 Definition bs (p d : Uint63.int) : body := BShift (I p) (I d).
 Definition br : body := BRestart.
+Definition bl (on : bool) : body := BLoad on.
 Definition cs (lo hi oidx : Uint63.int) (b : body) (o : obs) : cstep :=
   {| c_ev := {| e_now := I lo; e_oidx := I oidx; e_body := b |}; c_hi := I hi; c_obs := o |}.
 Definition pc (k psk ep : Uint63.int) : N * N * N := (I k, I psk, I ep).
